@@ -113,7 +113,7 @@ F2Case == ProjectCase("fk-range-plural",
                        vals |-> [l \in {"en", "fr", "ru"} |-> F2Keys]], F2Names, "none")
 
 \* F3: the target is defined / null / absent in the referring locale, under several inherits maps
-LocTag == [en |-> <<"e">>, fr |-> <<"f">>, de |-> <<"d">>]
+LocTag == [en |-> <<"e">>, fr |-> <<"f">>, de |-> <<"d">>, es |-> <<"s">>]
 \* the target itself refers to a third key whose text differs per locale: a defaulted target must bring along the text of
 \* the locale it comes from
 AEntry(l, p) == IF p = "null" THEN [k |-> "null"] ELSE Val(<<T(LocTag[l] \o <<"a","SP">>), V(X), T(<<"SP">>), Fk(<<"c">>, <<>>)>>)
@@ -123,13 +123,32 @@ F3Vals(pf, pd) ==
     [l \in {"en", "fr", "de"} |->
         LET p == IF l = "en" THEN "def" ELSE IF l = "fr" THEN pf ELSE pd IN
         (IF p = "abs" THEN << >> ELSE ("a" :> AEntry(l, p))) @@ ("b" :> BEntry(l)) @@ ("c" :> CEntry(l))]
-InhChoices3 == { << >>, ("de" :> "fr"), ("fr" :> "de"), ("de" :> "fr") @@ ("fr" :> "de"), ("de" :> "en") }
-F3Cases ==
-    { ProjectCase("fk-fallback",
-                  [def |-> "en", locs |-> <<"en", "fr", "de">>, inh |-> ih, vals |-> F3Vals(pf, pd)],
+InhSeq3 == << << >>, ("de" :> "fr"), ("fr" :> "de"), ("de" :> "fr") @@ ("fr" :> "de"), ("de" :> "en") >>
+\* (families are SEQUENCES built over sets of homogeneous index tuples: a set of cases would make TLC compare file nodes of
+\* different shapes while normalising it)
+F3Idx == { <<pf, pd, t>> : pf \in P3, pd \in P3, t \in DOMAIN InhSeq3 }
+F3Cases == LET I == SetToSeq(F3Idx) IN
+    [j \in DOMAIN I |-> ProjectCase("fk-fallback",
+                  [def |-> "en", locs |-> <<"en", "fr", "de">>, inh |-> InhSeq3[I[j][3]], vals |-> F3Vals(I[j][1], I[j][2])],
                   [k \in {"a", "b", "c"} |-> k],
-                  IF pf = "abs" \/ pd = "abs" THEN "may" ELSE "none")
-      : pf \in P3, pd \in P3, ih \in InhChoices3 }
+                  IF I[j][1] = "abs" \/ I[j][2] = "abs" THEN "may" ELSE "none")]
+
+\* F4: four locales - an inherits loop (fr <-> de) entered from a locale outside it (es -> fr), chains, and the loop alone;
+\* the walk that looks for a defaulted target must end whatever the shape
+F4Vals(pf, pd, pe) ==
+    [l \in {"en", "fr", "de", "es"} |->
+        LET p == CASE l = "en" -> "def" [] l = "fr" -> pf [] l = "de" -> pd [] OTHER -> pe IN
+        (IF p = "abs" THEN << >> ELSE ("a" :> AEntry(l, p))) @@ ("b" :> BEntry(l)) @@ ("c" :> CEntry(l))]
+InhSeq4 == << ("es" :> "fr") @@ ("fr" :> "de") @@ ("de" :> "fr"),
+              ("es" :> "fr") @@ ("fr" :> "de"),
+              ("es" :> "de") @@ ("fr" :> "de") @@ ("de" :> "fr"),
+              ("fr" :> "de") @@ ("de" :> "es") @@ ("es" :> "fr") >>
+F4Idx == { <<pf, pd, pe, t>> : pf \in {"null", "abs"}, pd \in P3, pe \in P3, t \in DOMAIN InhSeq4 }
+F4Cases == LET I == SetToSeq(F4Idx) IN
+    [j \in DOMAIN I |-> ProjectCase("fk-fallback",
+                  [def |-> "en", locs |-> <<"en", "fr", "de", "es">>, inh |-> InhSeq4[I[j][4]], vals |-> F4Vals(I[j][1], I[j][2], I[j][3])],
+                  [k \in {"a", "b", "c"} |-> k],
+                  IF I[j][1] = "abs" \/ I[j][2] = "abs" \/ I[j][3] = "abs" THEN "may" ELSE "none")]
 
 \* a plural target that is null in fr: the literal count must be classified with fr's rules when fr is rendered
 F3Plural ==
@@ -140,13 +159,13 @@ F3Plural ==
                 [k \in {"p", "c"} |-> k], "none")
 
 \* F5: references that must be rejected, with an error naming a key of the chain
-F5Cases ==
-    { ProjectCase("fk-error", [def |-> "en", locs |-> <<"en">>, inh |-> << >>, vals |-> [en |-> v]], [k \in DOMAIN v |-> k], "none")
-      : v \in { [a |-> Val(<<Fk(<<"z">>, <<>>)>>), b |-> Val(<<T(<<"x">>)>>)],
-                [a |-> Val(<<Fk(<<"g">>, <<>>)>>), g |-> [k |-> "group"]],
-                [a |-> Val(<<Fk(<<"b">>, <<>>)>>), b |-> Val(<<T(<<"x">>), Fk(<<"a">>, <<>>)>>)],
-                [a |-> Val(<<Fk(<<"b">>, <<ArgP(X, <<Fk(<<"a">>, <<>>)>>)>>)>>), b |-> Val(<<V(X)>>)],
-                [a |-> Val(<<Fk(<<"r">>, <<ArgP(Cnt, <<T(<<"n","o">>)>>)>>)>>), r |-> RangeR] } }
+F5Vals == << [a |-> Val(<<Fk(<<"z">>, <<>>)>>), b |-> Val(<<T(<<"x">>)>>)],
+             [a |-> Val(<<Fk(<<"g">>, <<>>)>>), g |-> [k |-> "group"]],
+             [a |-> Val(<<Fk(<<"b">>, <<>>)>>), b |-> Val(<<T(<<"x">>), Fk(<<"a">>, <<>>)>>)],
+             [a |-> Val(<<Fk(<<"b">>, <<ArgP(X, <<Fk(<<"a">>, <<>>)>>)>>)>>), b |-> Val(<<V(X)>>)],
+             [a |-> Val(<<Fk(<<"r">>, <<ArgP(Cnt, <<T(<<"n","o">>)>>)>>)>>), r |-> RangeR] >>
+F5Cases == [j \in DOMAIN F5Vals |->
+    ProjectCase("fk-error", [def |-> "en", locs |-> <<"en">>, inh |-> << >>, vals |-> [en |-> F5Vals[j]]], [k \in DOMAIN F5Vals[j] |-> k], "none")]
 
 \* nested reference inside an argument, and a three-level chain with arguments at each level
 F6Keys ==
@@ -199,5 +218,5 @@ F7Case == LET vals == [l \in {"en", "fr"} |-> F7Vals(l)] IN
           ProjectCase("fk-arm-shapes", [def |-> "en", locs |-> <<"en", "fr">>, inh |-> << >>, vals |-> vals],
                       [k \in DOMAIN vals["en"] |-> k], "none")
 
-Families == {F2Case, F3Plural, F6Case, F7Case} \cup F3Cases \cup F5Cases
+Families == <<F2Case, F3Plural, F6Case, F7Case>> \o F3Cases \o F4Cases \o F5Cases
 =============================================================================
